@@ -98,6 +98,9 @@ CHECKS = {
 "C36": ("exploration", "deterministic simulation, client side: the real client Session with its session and subscription event loops against a scripted raw server that decides per arriving PublishRequest (notification / keep-alive / service fault / silence / late / held); the server-side history of acknowledgements is checked after a fault-free quiescence phase",
         "Oracle: every data notification delivered in time is acknowledged by a later publish request; an acknowledgement carried by a successfully answered request is never carried again (nor twice in one request); acknowledgements carried by a failed request are carried again later.",
         "Policy None, anonymous. Connection loss is outside the property's quantifier and not injected. Success/failure of a request is decided with a 3 ms margin around the client's deadline; in between either is accepted.", "7/C36"),
+"C38": ("exploration", "deterministic simulation: (a) lock seam in record mode under the two-connection service swarm with timer ticks, disconnects and an application actor: per-run lock graph over instances with modes, call sites and gate locks, searched for mode- and gate-feasible cycles; (b) baton threads (L3): two real OS threads, one connection each, run real server code; every blocking lock acquisition is a scheduling point decided by a seeded scheduler over a reader/writer lock model; a state with every unfinished thread parked and none grantable is a deadlock and the choice sequence is the replay schedule",
+        "Oracle: no feasible cycle in the held->acquired graph (Read-vs-Read edges do not block; two edges serialised by a common exclusively-held gate lock cannot coexist); no re-entrant acquisition of one instance when a writer exists; no reachable deadlock under the baton scheduler.",
+        "Server construction and application set-up are not recorded (no task exists yet). Signatures name the lock types of the cycle and the file in which the out-of-order outer lock was taken (documented order ServerState, Session, AddressSpace is used for naming only). 8 known findings (Call and CreateSession paths), see DESIGN.md.", "7/C38"),
 "C14": ("exploration", "deterministic simulation: seeded interleavings of requests, renew-begin / renew-end and forged-token requests from a raw client on secured channels against the real server tasks; token-epoch reference model, acceptance observed through the request's effect",
         "Oracle: a request secured under the server's current token, or the previous one while nothing newer has been received, takes effect; a request under a never-issued token (foreign keys or unknown token id) never does.",
         "Server side only (all policies x Sign/SignAndEncrypt, RSA 2048); the real client's handling of new-token responses is not covered.", "7/C14"),
